@@ -331,6 +331,20 @@ func (e *Engine) trustedBase(prop string, used map[string]bool) []string {
 			out = append(out, "axiom "+l.Name+": "+l.Src)
 		}
 	}
+	// preconditions of functions under contract that no caller is asked to establish: untagged requires of entry points
+	// are assumptions by nature; the ones tagged [wf] (well-formedness) or with another property are listed explicitly
+	for k, fc := range e.cs.Funcs {
+		if fc.Kind != "func" || !fc.Props[prop] {
+			continue
+		}
+		for _, c := range fc.Requires {
+			if c.Prop == "wf" || (c.Prop != "" && !propMatch(c.Prop, prop)) {
+				out = append(out, "assumed precondition of "+shortFuncName(k)+" (tag "+c.Prop+", not an obligation of its callers under this property): "+c.Src)
+			} else {
+				out = append(out, "precondition of "+shortFuncName(k)+" (assumed at its entry; an obligation only at call sites inside other functions under contract): "+c.Src)
+			}
+		}
+	}
 	sort.Strings(out)
 	return out
 }
